@@ -353,8 +353,8 @@ def plan(tier):
         if tier == "quick":
             yield p, (1 if key in deep else 0)
         else:
-            yield p, (2 if key in {("client", "open-idle", "close"), ("server", "open-consumer", "eof"),
-                                   ("server", "open-idle", "dpr"), ("client", "open-outbound", "close")} else 1)
+            # d = 2 costs about 300 000 executions per scenario (600-point executions): two scenarios
+            yield p, (2 if key in {("client", "open-idle", "close"), ("server", "open-consumer", "eof")} else 1)
 
 
 def _shard(rep, arg):
